@@ -1,5 +1,5 @@
 (* Properties_C17.v — string, character and conversion built-ins meet their contracts. *)
-From PE2 Require Import Builtins Lemmas_Builtins.
+From PE2 Require Import Builtins Lemmas_Builtins Codec Lemmas_Numerals.
 Local Open Scope Z_scope.
 
 Theorem C17_left_right : forall s n l r,
@@ -48,6 +48,23 @@ Print Assumptions C17_case_maps.
 Theorem C17_is_num_accepts_numerals : forall s, numeral_chars s -> (count_points s <= 1)%nat -> bi_is_num s = true.
 Proof. exact is_num_accepts. Qed.
 Print Assumptions C17_is_num_accepts_numerals.
+
+(* every non-empty string of decimal digits is converted to the number it denotes (INTEGER("..."), INPUT into an
+   INTEGER variable); beyond the 64-bit range the conversion saturates, as strtol does *)
+Theorem C17_digits_to_integer : forall ds, ds <> [] -> forallb is_digit ds = true ->
+  string_to_int ds = (let v := digits_to_z ds in if v <? int64_min then int64_min else if int64_max <? v then int64_max else v).
+Proof. exact string_to_int_digits. Qed.
+Print Assumptions C17_digits_to_integer.
+
+(* NUM_TO_STR / OUTPUT of an INTEGER followed by INTEGER(...) is the identity on the whole 64-bit range *)
+Theorem C17_integer_text_roundtrip : forall z, int64_min <= z <= int64_max -> string_to_int (z_to_str z) = z.
+Proof. exact string_to_int_z_to_str. Qed.
+Print Assumptions C17_integer_text_roundtrip.
+
+Theorem C17_printed_integer_is_digits : forall n, 0 <= n ->
+  nat_digits n <> [] /\ forallb is_digit (nat_digits n) = true /\ digits_to_z (nat_digits n) = n.
+Proof. exact nat_digits_spec. Qed.
+Print Assumptions C17_printed_integer_is_digits.
 
 Example C17_examples : bi_mid (str_of_string "abcd") 3 4 = None /\ bi_mid (str_of_string "abcd") 2 2 = Some (str_of_string "bc") /\
   bi_left (str_of_string "ab") 1 = Some (str_of_string "a").
